@@ -52,19 +52,24 @@ Proof.
     + apply Emits_intro; cbn; [exact Hok | reflexivity | reflexivity | discriminate | discriminate].
 Qed.
 
+Lemma app_continue_spec t t' o p : Tinv t -> t_pni t = Some p ->
+  t_app_continue tc t = (t', o) -> Tinv t' /\ Emits t' o p.
+Proof.
+  intros HI Hpni H. unfold t_app_continue in H. destruct (t_app t) as [|[[|x rt] resp] rest].
+  - injection H as <- <-. split; [destruct HI; split; cbn; assumption|]. left. split; reflexivity.
+  - eapply start_send_spec; [| |exact H]; [destruct HI; split; assumption | exact Hpni].
+  - unfold t_emit in H. injection H as <- <-. destruct HI as [Hp Hr].
+    assert (Hok : resp_ok (mkdep F_RTOX 0 (tc_did tc) (tc_nad tc) [x])).
+    { apply resp_ok_mk; [unfold F_RTOX; lia | lia | unfold len; cbn; lia]. }
+    split; [split; cbn; [exact Hp | intros r Hr'; injection Hr' as <-; exact Hok]|].
+    (* the RTOX response carries packet number 0 in its PFB, the target's own counter is unchanged *)
+    apply Emits_intro; cbn; [exact Hok | reflexivity | exact Hpni | discriminate | discriminate].
+Qed.
+
 Lemma app_step_spec t payload t' o p : Tinv t -> t_pni t = Some p ->
   t_app_step tc t payload = (t', o) -> Tinv t' /\ Emits t' o p.
 Proof.
-  intros HI Hpni H. unfold t_app_step in H. destruct (t_app t) as [|[x resp] rest].
-  - injection H as <- <-. split; [exact HI|]. left. split; reflexivity.
-  - destruct (0 <? x) eqn:Ex.
-    + unfold t_emit in H. injection H as <- <-. destruct HI as [Hp Hr].
-      assert (Hok : resp_ok (mkdep F_RTOX 0 (tc_did tc) (tc_nad tc) [x])).
-      { apply resp_ok_mk; [unfold F_RTOX; lia | lia | unfold len; cbn; lia]. }
-      split; [split; cbn; [exact Hp | intros r Hr'; injection Hr' as <-; exact Hok]|].
-      (* the RTOX response carries packet number 0 in its PFB, the target's own counter is unchanged *)
-      apply Emits_intro; cbn; [exact Hok | reflexivity | exact Hpni | discriminate | discriminate].
-    + eapply start_send_spec; [| |exact H]; [destruct HI; split; assumption | exact Hpni].
+  intros HI Hpni H. unfold t_app_step in H. eapply app_continue_spec; [| |exact H]; [destruct HI; split; assumption | exact Hpni].
 Qed.
 
 Lemma recv_chain_spec t d acc t' o p : Tinv t -> t_pni t = Some p ->
@@ -204,21 +209,27 @@ Proof.
       (split; [destruct HI; split; cbn; assumption | apply OutOk_none]).
 Qed.
 
+Lemma app_continue_inv t t' o : Tinv t -> t_app_continue tc t = (t', o) -> Tinv t' /\ OutOk o.
+Proof.
+  intros HI H. destruct (t_pni t) as [p|] eqn:Ep.
+  - destruct (app_continue_spec _ _ _ _ HI Ep H) as [H1 H2]. split; [exact H1 | eapply Emits_OutOk, H2].
+  - unfold t_app_continue in H. destruct (t_app t) as [|[[|x rt] resp] rest].
+    + injection H as <- <-. split; [destruct HI; split; cbn; assumption | apply OutOk_none].
+    + eapply start_send_inv; [|exact H]. destruct HI; split; cbn; assumption.
+    + unfold t_emit in H. injection H as <- <-. destruct HI as [Hp Hr].
+      assert (Hok : resp_ok (mkdep F_RTOX 0 (tc_did tc) (tc_nad tc) [x])).
+      { apply resp_ok_mk; [unfold F_RTOX; lia | lia | unfold len; cbn; lia]. }
+      split; [split; cbn; [exact Hp | intros r Hr'; injection Hr' as <-; exact Hok]|].
+      intros y Hy. injection Hy as <-. eauto.
+Qed.
+
 Lemma recv_chain_inv t d acc t' o : Tinv t -> t_recv_chain tc t d acc = (t', o) -> Tinv t' /\ OutOk o.
 Proof.
   intros HI H. destruct (t_pni t) as [p|] eqn:Ep.
   - destruct (recv_chain_spec _ _ _ _ _ _ HI Ep H) as [H1 H2]. split; [exact H1 | eapply Emits_OutOk, H2].
   - unfold t_recv_chain in H. rewrite Ep in H. destruct (fmt d =? F_MORE).
     + unfold t_stop in H; injection H as <- <-. split; [destruct HI; split; cbn; assumption | apply OutOk_none].
-    + unfold t_app_step in H. destruct (t_app t) as [|[x resp] rest].
-      * injection H as <- <-. split; [destruct HI; split; cbn; assumption | apply OutOk_none].
-      * destruct (0 <? x).
-        -- unfold t_emit in H. injection H as <- <-. destruct HI as [Hp Hr].
-           assert (Hok : resp_ok (mkdep F_RTOX 0 (tc_did tc) (tc_nad tc) [x])).
-           { apply resp_ok_mk; [unfold F_RTOX; lia | lia | unfold len; cbn; lia]. }
-           split; [split; cbn; [exact Hp | intros r Hr'; injection Hr' as <-; exact Hok]|].
-           intros y Hy. injection Hy as <-. eauto.
-        -- eapply start_send_inv; [|exact H]. destruct HI; split; cbn; assumption.
+    + unfold t_app_step in H. eapply app_continue_inv; [|exact H]. destruct HI; split; cbn; assumption.
 Qed.
 
 Lemma accept_inv t d t' o : Tinv t -> t_accept tc t d = (t', o) -> Tinv t' /\ OutOk o.
@@ -253,10 +264,7 @@ Proof.
   - destruct (fmt d =? F_RTOX).
     + destruct (data d) as [|x rest].
       { injection H as <- <-. split; [apply (Tinv_stop_rtx t _ HI) | apply OutOk_none]. }
-      cbn [t_app t_pni t_pos t_res t_out t_rtx t_act] in H.
-      destruct (t_app t) as [|[y resp] more].
-      * injection H as <- <-. split; [split; cbn; assumption | apply OutOk_none].
-      * eapply start_send_inv; [|exact H]. split; cbn; assumption.
+      eapply app_continue_inv; [|exact H]. split; cbn; assumption.
     + injection H as <- <-. split; [apply (Tinv_stop_rtx t _ HI) | apply OutOk_none].
   - injection H as <- <-. split; [exact HI | apply OutOk_none].
 Qed.
